@@ -95,7 +95,7 @@ def make_cases(rng, n, tier):
         if f["GD"] <= 2 and K <= 3:
             m["algs"] = m["algs"] + ["pi"]
             m["PICAP"] = 100000
-        m["undef"] = rng.choice([0, -7])
+        m["undef"] = rng.choice([0, -7, "-inf"])
         rep = dict(REPS[rng.randrange(len(REPS))])
         if not rep["explicit_list"] and not gen.ghost_closed(m):
             rep["explicit_list"] = True      # ghost successors outside the inferred list: C06's business
@@ -113,21 +113,30 @@ def run_real(case):
     rng = random.Random(digest(case))
     out = {}
     eps = m["EN"] / m["ED"]
+    undef = float(m["undef"])
     for alg in ("vec", "dict", "pi"):
         try:
             b = build.build_mdp(m, rng=rng, **rep)
             with warnings.catch_warnings():
                 warnings.simplefilter("ignore")
                 if alg == "vec":
-                    r = ValueIteration(max_iterations=m["CAP"], max_residual=eps, undefined_value=m["undef"],
+                    r = ValueIteration(max_iterations=m["CAP"], max_residual=eps, undefined_value=undef,
                                        _version="vectorized").plan_on(b.mdp)
                 elif alg == "dict":
-                    r = ValueIteration(max_iterations=m["CAP"], max_residual=eps, undefined_value=m["undef"],
+                    r = ValueIteration(max_iterations=m["CAP"], max_residual=eps, undefined_value=undef,
                                        _version="dict").plan_on(b.mdp)
                 else:
-                    # the batch entry point, with a second copy of the same MDP in the batch
-                    b2 = build.build_mdp(m, rng=random.Random(1), **rep)
-                    r = PolicyIteration(max_iterations=100000, undefined_value=m["undef"]).batch_plan_on([b.mdp, b2.mdp])[0]
+                    # the batch entry point: a partner MDP of the same shape but another discount rate and
+                    # other rewards comes FIRST in the batch, the case's MDP second
+                    g = m["GN"] / m["GD"]
+                    m2 = dict(m)
+                    m2["R"] = [[[-abs(x) - 1 for x in row] for row in sa] for sa in m["R"]]
+                    b2 = build.build_mdp(m2, rng=random.Random(1), discount=(0.25 if g >= 0.5 else 0.9),
+                                         **dict(rep, explicit_list=True))
+                    if tuple(b2.mdp.transition_matrix.shape) == tuple(b.mdp.transition_matrix.shape):
+                        r = PolicyIteration(max_iterations=100000, undefined_value=undef).batch_plan_on([b2.mdp, b.mdp])[1]
+                    else:
+                        r = PolicyIteration(max_iterations=100000, undefined_value=undef).batch_plan_on([b.mdp])[0]
             out[alg] = project(b, r)
         except Exception as e:                       # noqa: BLE001 - reported as a clause failure
             out[alg] = {"error": f"{type(e).__name__}: {e}"[:300]}
@@ -174,8 +183,46 @@ def judge_cases(ctx, cases, *, real=None):
         rec["explicit"] = 1 if c["rep"]["explicit_list"] else 0
         batch.append(rec)
     res = run_tlc(ctx.workdir / "mc", "C01_Planners", CFG, files={"batch.json": batch},
-                  env={"BATCH_FILE": "batch.json", "MODE": "mc"}, coverage=(ctx.tier == "thorough"))
+                  env={"BATCH_FILE": "batch.json", "MODE": "mc", "FAMGAMMA": "half", "FAMMOD": 1, "FAMREM": 0},
+                  coverage=(ctx.tier == "thorough"))
     ctx.add_tlc(res, "mc: oracle + VIvec/VIdict/PI machines over the batch")
+    compare(ctx, cases, res, real=real)
+
+
+def family_cases(ctx, gamma, mod, rem):
+    """Mode "family": TLC enumerates the exhaustive two-state family itself (a slice of it) and emits the
+    instances; they are replayed into the real planners."""
+    res = run_tlc(ctx.workdir / f"fam-{gamma}", "C01_Planners", CFG, files={"batch.json": []},
+                  env={"BATCH_FILE": "batch.json", "MODE": "family", "FAMGAMMA": gamma, "FAMMOD": mod, "FAMREM": rem},
+                  coverage=(ctx.tier == "thorough"), timeout=7200)
+    ctx.add_tlc(res, f"family({gamma}): exhaustive 2-state/2-action family, slice {rem} mod {mod}")
+    # re-number: cases in the order of the oracle records
+    recs = [r for r in res.records if r["kind"] == "oracle"]
+    remap = {}
+    cases = []
+    rng = random.Random(ctx.seed + 17)
+    for r in recs:
+        m = r["inst"]
+        m = {k: m[k] for k in m}
+        m["algs"] = list(m["algs"])
+        m["undef"] = rng.choice([0, -7])
+        rep = dict(REPS[rng.randrange(len(REPS))])
+        rep["explicit_list"] = True
+        if rep["rep"] == "matrices":
+            rep["rep"] = "quick"
+        cases.append({"m": m, "rep": rep})
+        remap[r["iid"]] = len(cases)
+    for r in res.records:
+        r["iid"] = remap[r["iid"]]
+    compare(ctx, cases, res)
+    return len(cases)
+
+
+def _real_worker(c):
+    return run_real(c)
+
+
+def compare(ctx, cases, res, *, real=None):
     bad = [v for v in res.violated if v in DESIGN_INVS]
     if bad:
         raise TLCFailure(f"design-level invariant violated in C01_Planners: {sorted(set(bad))}\n"
@@ -183,6 +230,13 @@ def judge_cases(ctx, cases, *, real=None):
     by = {}
     for r in res.records:
         by[(r["iid"], r["kind"])] = r
+    if real is None:
+        if len(cases) > 1500:
+            import multiprocessing as mp
+            with mp.get_context("fork").Pool(12) as pool:
+                real = pool.map(_real_worker, cases, chunksize=50)
+        else:
+            real = [run_real(c) for c in cases]
     judge_batch = []
     pending = []
     for i, c in enumerate(cases, start=1):
@@ -198,7 +252,7 @@ def judge_cases(ctx, cases, *, real=None):
                 if (pv[s] == pyoracle.NEG) != (tv == float("-inf")) or (pv[s] != pyoracle.NEG and pv[s] != tv):
                     raise TLCFailure(f"TLA+ oracle and Python oracle disagree on case {i} state {s}: {tv} vs {pv[s]}")
             ctx.count("oracle_crosschecks")
-        outs = real[i - 1] if real is not None else run_real(c)
+        outs = real[i - 1]
         ctx.evaluations += len(outs)
         pending.append((i, c, orc, outs))
         for alg, o in outs.items():
@@ -213,9 +267,10 @@ def judge_cases(ctx, cases, *, real=None):
             jr.update(EN=1, ED=1, CAP=1, algs=[], pol=pol, tag=f"{i}:{alg}", explicit=1)
             judge_batch.append(jr)
     jby = {}
-    if judge_batch:
-        jres = run_tlc(ctx.workdir / "judge", "C01_Planners", "INIT Init\nNEXT Next\nCHECK_DEADLOCK FALSE\nINVARIANT Emit\n",
-                       files={"batch.json": judge_batch}, env={"BATCH_FILE": "batch.json", "MODE": "judge"})
+    for k0 in range(0, len(judge_batch), 20000):
+        jres = run_tlc(ctx.workdir / f"judge{k0}", "C01_Planners", "INIT Init\nNEXT Next\nCHECK_DEADLOCK FALSE\nINVARIANT Emit\n",
+                       files={"batch.json": judge_batch[k0:k0 + 20000]},
+                       env={"BATCH_FILE": "batch.json", "MODE": "judge", "FAMGAMMA": "half", "FAMMOD": 1, "FAMREM": 0})
         ctx.add_tlc(jres, "judge: exact evaluation of the returned policies (one Plan event each)")
         for r in jres.records:
             jby[r["tag"]] = r
@@ -259,7 +314,9 @@ def judge_one(ctx, i, c, orc, outs, by, jby):
             case_ok = False
             sig = f"C01:{site}:{clause}"
             if leaks and clause in ("value", "policy-support", "policy-return"):
-                sig = f"C01:{site}:leak-into-cannot-reach"
+                sig = "C01:planners:leak-into-cannot-reach"
+            elif clause == "policy-return" and extra and extra.get("only_cannot_reach_rows"):
+                sig = "C01:planners:cannot-reach-policy"
             if alg == "pi" and g == 1 and pi_stuck and clause in ("value", "policy-support", "policy-return", "error"):
                 sig = "C01:PolicyIteration:undiscounted-stuck"
             ctx.violation(sig, f"{site} {clause}: {what}", {"case": c, "alg": alg, "clause": clause, "extra": extra})
@@ -285,12 +342,18 @@ def judge_one(ctx, i, c, orc, outs, by, jby):
         for s in listed:
             if s in absall and o["V"][s] != 0:
                 fail("absorbing-zero", f"value {o['V'][s]} at absorbing state {s}")
-            if g == 1 and s in cannot and s not in absall and o["V"][s] != m["undef"]:
+            if g == 1 and s in cannot and s not in absall and o["V"][s] != float(m["undef"]):
                 fail("placeholder", f"value {o['V'][s]} at cannot-reach state {s}, placeholder {m['undef']}")
         # --- clause: initial value is the expectation of the reported state values
-        ev = sum(F(m["p0"][s], m["ID"]) * F(o["V"][s]) for s in listed if m["p0"][s] > 0)
-        if not close(o["initial_value"], ev, 1e-12):
-            fail("initial-value", f"initial_value {o['initial_value']} != sum p0*V = {float(ev)}")
+        supp = [s for s in listed if m["p0"][s] > 0]
+        if any(math.isinf(o["V"][s]) for s in supp):
+            ev = sum(m["p0"][s] / m["ID"] * o["V"][s] for s in supp)
+            if not (o["initial_value"] == ev):
+                fail("initial-value", f"initial_value {o['initial_value']} != sum p0*V = {ev}")
+        else:
+            ev = sum(F(m["p0"][s], m["ID"]) * F(o["V"][s]) for s in supp)
+            if not close(o["initial_value"], ev, 1e-12):
+                fail("initial-value", f"initial_value {o['initial_value']} != sum p0*V = {float(ev)}")
         if not stopped:
             ctx.count("runs_stopped_by_cap")
             continue
@@ -315,7 +378,18 @@ def judge_one(ctx, i, c, orc, outs, by, jby):
                      {"vstar": [str(x) for x in vstar]})
                 break
         # --- clause: policy support = exact maximisers (near-ties aside), uniform weights
-        bb = b if b is not None else (eps * max([float(x) for x in steps if isinstance(x, F)] + [1.0]) if steps else eps)
+        # bb = measured sup-norm error of this run's reported values and action values w.r.t. the
+        # exact optimum (the planner ranks actions by its own approximate action values)
+        errs = [1e-12]
+        for s in listed:
+            if s in absall or (g == 1 and s in cannot):
+                continue
+            if isinstance(vstar[s], F):
+                errs.append(abs(o["V"][s] - float(vstar[s])))
+            for a in range(K):
+                if m["avail"][s][a] and isinstance(qstar[s][a], F) and a in o["Q"].get(s, {}):
+                    errs.append(abs(o["Q"][s][a] - float(qstar[s][a])))
+        bb = max(errs)
         for s in listed:
             if s in absall or (g == 1 and s in cannot):
                 continue
@@ -360,13 +434,20 @@ def judge_one(ctx, i, c, orc, outs, by, jby):
                 okp = (pinit == vinit)
             else:
                 okp = float(vinit - pinit) <= slack + 1e-9 and float(pinit - vinit) <= 1e-9
-            if not okp and not any(m["p0"][s] > 0 and s in cannot for s in range(N)):
-                fail("policy-return", f"exact return of the returned policy {pinit} vs optimal {vinit}")
+            if not okp:
+                pfix = frac(jr["pfix"])
+                if isinstance(vinit, float) or isinstance(pfix, float):
+                    okfix = (pfix == vinit)
+                else:
+                    okfix = float(vinit - pfix) <= slack + 1e-9 and float(pfix - vinit) <= 1e-9
+                fail("policy-return", f"exact return of the returned policy {pinit} vs optimal {vinit}",
+                     {"only_cannot_reach_rows": bool(cannot) and okfix})
         # --- DRIFT: the exact machines explain the run (iterations, iterate)
         mrec = by.get((i, alg))
         if mrec is not None and alg == "pi" and mrec["phase"] == "done":
             mv = [frac(x) for x in mrec["v"]]
-            same = mrec["its"] == o["iterations"] and all(
+            # (the iteration count of the batch entry point is shared by the whole batch: not compared)
+            same = all(
                 abs(o["V"][s] - float(mv[s])) <= 1e-9 * max(1, abs(float(mv[s])))
                 for s in listed if not (g == 1 and s in cannot)) and all(
                 set(o["pol"].get(s, {})) == {a - 1 for a in mrec["sup"][s]} for s in listed)
@@ -408,7 +489,7 @@ def judge_one(ctx, i, c, orc, outs, by, jby):
 # --------------------------------------------------------------------------------------------
 def run(ctx):
     rng = random.Random(ctx.seed * 7919 + 1)
-    n = 400 if ctx.tier == "quick" else 6000
+    n = 300 if ctx.tier == "quick" else 6000
     ctx.rule = ("random members of MDPFam (1-3 non-absorbing + 0-2 explicitly absorbing states with ghost dynamics, "
                 "1-3 state-dependent actions, gamma in {1/2,3/4,9/10,1}, PD in {2,4}) x residual x cap x placeholder x "
                 "representation; non-trivial = >=2 non-absorbing states and some listed state with two available actions "
@@ -416,9 +497,18 @@ def run(ctx):
     ctx.assumptions = ["TLC evaluates the TLA+ oracle correctly (cross-checked against an independent Fraction implementation on every 5th case)",
                        "float comparisons use 1e-9 relative slack on top of the bound named by the property"]
     cases = make_cases(rng, n, ctx.tier)
-    chunk = 400
+    chunk = 1000
     for k in range(0, len(cases), chunk):
         judge_cases(ctx, cases[k:k + chunk])
+    # exhaustive two-state family enumerated by TLC itself: a slice in quick, everything in thorough
+    mod = 600 if ctx.tier == "quick" else 1
+    n = 0
+    for gamma in ("half", "one"):
+        n += family_cases(ctx, gamma, mod, ctx.seed % mod)
+    ctx.count("family_instances", n)
+    if ctx.tier == "thorough":
+        ctx.exhaustive = True
+        ctx.extra["exhaustive_family"] = "all 209952 (x2 discounts) two-state/two-action MDPs of C01_Planners!Family"
 
 
 def replay(ctx, case):
